@@ -260,6 +260,24 @@ def make_cases(ctx, first):
                 w.g[repo].tags["late%d" % rnd] = dg("sha256", body)
             gcn += 1
             w.collect(repo, gcn)
+        if i % 4 == 1:
+            # an artifact pushed a moment ago whose subject is not there: whatever the policy says about dangling referrers,
+            # what was pushed within the grace period stays
+            repo = w.repo() if w.repos[0] == "ext" else rng.choice([r_ for r_ in w.repos if r_ not in ("ext", "fresh")])
+            w.image(repo, subject=dg("sha256", b"never-pushed-%d" % i), artifact_type="application/vnd.example.sig")
+            gcn += 1
+            w.collect(repo, gcn)
+        elif i % 4 == 2:
+            # a manifest that an old, untagged index lists is pushed again (acknowledged: stored now) before the collection
+            # that removes that index
+            repo = rng.choice([r_ for r_ in w.repos if r_ not in ("ext", "fresh")])
+            m_ = w.image(repo)
+            w.index(repo, [m_])
+            w.age(repo, "all")
+            g_ = w.g[repo]
+            w.add(manifest_put(repo, m_, g_.bytes[m_], ctype=g_.man[m_]["mt"]))
+            gcn += 1
+            w.collect(repo, gcn)
         if ext:
             if rng.random() < 0.7:
                 w.age("ext", "all")
